@@ -210,6 +210,8 @@ def run_extra(ctx, prop, spec, rep):
     k1 = spec.get('k1', [])
     if 'verdict' in k1 or 'mutants' in k1:
         tie_k1_verdict(ctx, prop, rep, want_mutants=('mutants' in k1))
+    if spec.get('names'):
+        tie_k1_names(ctx, prop, rep)
     if 'pair' in spec.get('direct', []):
         direct_pair(ctx, rep)
     if 'twin' in spec.get('direct', []):
@@ -323,3 +325,57 @@ def to_tuples(x):
             return tuple(to_tuples(y) if i > 0 else y for i, y in enumerate(x))
         return [to_tuples(y) for y in x]
     return x
+
+
+# ---------------------------------------------------------------- K1: the name functions
+
+def k1_names(ctx):
+    """to_snake_case / to_pascal_case of the real macro vs Ident.v, on every string over a 7-letter alphabet
+    up to length 4 (quick) / 5 (thorough) and on the identifier pools"""
+    import itertools
+    import subprocess
+    exp = ctx.stage('expander', stages.expander_build)
+    if not exp['ok']:
+        return {'ok': False, 'why': 'expander does not build against /repo'}
+    alpha = 'aA1_bB2'
+    maxlen = 4 if ctx.tier == 'quick' else 5
+    names = []
+    for n in range(1, maxlen + 1):
+        for t in itertools.product(alpha, repeat=n):
+            names.append(''.join(t))
+    names += smgen.STATE_POOL + smgen.SUPER_POOL + smgen.EVENT_POOL + smgen.NAME_POOL + corpus.NON_SNAKE + \
+        ['HTTPRequest', 'XMLParser', 'IOError', 'parseXML', 'sendHTTPRequest', 'ABCDef', 'SCREAMING_SNAKE', 'enable_2fa', 'x_y_z1']
+    names = sorted(set(names))
+    p = subprocess.run([exp['bins'][False], 'names'], input='\n'.join(names) + '\n', capture_output=True, text=True, timeout=600)
+    real = {}
+    for line in p.stdout.splitlines():
+        f = line.split('\t')
+        if len(f) == 3:
+            real[f[0]] = (f[1], f[2])
+    shards = [[] for _ in range(16)]
+    for i, nm in enumerate(names):
+        r = real.get(nm, ('?', '?'))
+        shards[i % 16].append('Eval vm_compute in ("R", %d, 0, (if String.eqb (to_snake_case "%s") "%s" then [] else [1]) ++ '
+                              '(if String.eqb (to_pascal_case "%s") "%s" then [] else [2])).' % (i, nm, r[0], nm, r[1]))
+    out = coqrun.run_shards(os.path.join(ctx.dir, 'coq_k1n'), ['\n'.join(s) for s in shards])
+    R = coqrun.parse_R(out)
+    diffs = []
+    for i, nm in enumerate(names):
+        bad = R.get((i, 0))
+        if bad is None or bad:
+            diffs.append({'name': nm, 'real_snake': real.get(nm, ('?', '?'))[0], 'real_pascal': real.get(nm, ('?', '?'))[1],
+                          'differs_in': ['missing'] if bad is None else ['to_snake_case' if 1 in bad else '', 'to_pascal_case' if 2 in bad else '']})
+    return {'ok': True, 'n': len(names), 'diffs': diffs[:20], 'ndiffs': len(diffs)}
+
+
+def tie_k1_names(ctx, prop, rep):
+    r = ctx.stage('k1_names', lambda: k1_names(ctx))
+    if not r['ok']:
+        rep.violate('tie', 'K1 names could not run: ' + r['why'], {}, no_input=True)
+        return
+    rep.cov['k1_names'] = {'identifiers_compared': r['n'], 'differences': r['ndiffs']}
+    rep.evals += r['n']
+    rep.distinct += r['n']
+    for d in r['diffs'][:4]:
+        rep.violate('k1', 'name function differs from the model on `%s`: macro gives snake `%s`, pascal `%s`'
+                    % (d['name'], d['real_snake'], d['real_pascal']), {'kind': 'k1-names', **d})
